@@ -20,7 +20,7 @@ func init() { register(c18{}) }
 func (c18) Meta() core.Meta {
 	return core.Meta{
 		ID: "C18", Level: "exploration",
-		Rule:        "case i = f(seed,i): a history of 1..40 option-setter calls (explicit, toggling, repeated and multi-argument forms of every setter; attribute prefixes; single-character punctuation key prefixes; both escaping switches in either order; field separators; array sizes) interleaved with decode/encode/query calls on a fixed probe corpus. Online checker: after every setter call the hooked option snapshot (VerifOptionSnapshot) must equal the successor state of the documented option model (idempotence of explicit forms; toggle / disable / reset semantics of the argument-less forms; coupled escaping switches); a repeated explicit call must leave the snapshot unchanged. Non-interference probes around the relevant calls: attribute prefix / lower-casing leave the sequence codec and JSON unchanged, cast options leave un-cast decoding unchanged, encoder switches leave decoding unchanged. After the history every option is set back to its default through the public setters: the snapshot must equal the process-start snapshot and a behaviour battery (decode, encode, query through every API family, 60+ fingerprints) must equal the battery taken in the fresh process. Non-trivial: history with >=3 setter calls; distinct by hash(history).",
+		Rule:        "case i = f(seed,i): a history of 1..40 option-setter calls (explicit, toggling, repeated and multi-argument forms of every setter; attribute prefixes; single-character punctuation key prefixes; both escaping switches in either order; field separators; array sizes) interleaved with decode/encode/query calls on a fixed probe corpus. Online checker: after every setter call the hooked option snapshot (VerifOptionSnapshot) must equal the successor state of the documented option model (idempotence of explicit forms; toggle / disable / reset semantics of the argument-less forms; coupled escaping switches); a repeated explicit call must leave the snapshot unchanged. Non-interference probes around the relevant calls: attribute prefix / lower-casing leave the sequence codec and JSON unchanged, cast options leave un-cast decoding unchanged, encoder switches leave decoding unchanged, decoder-only options (case folding, snake case, sequence numbers, trimming, casts, ...) leave the encodings of hand-built Maps - with keys that resemble the attribute prefix in another letter case - unchanged. After the history every option is set back to its default through the public setters: the snapshot must equal the process-start snapshot and a behaviour battery (decode, encode, query through every API family, 60+ fingerprints) must equal the battery taken in the fresh process. Non-trivial: history with >=3 setter calls; distinct by hash(history).",
 		Assumptions: []string{"the option model is written from the setters' documentation (DESIGN 3.3 optModel)", "key prefixes are single punctuation characters (the quantifier); a letter that occurs in the key names cannot be undone by design"},
 		Anchors:     []string{"SetGlobalKeyMapPrefix", "PrependAttrWithHyphen", "SetAttrPrefix", "IncludeTagSeqNum", "CoerceKeysToLower", "DisableTrimWhiteSpace", "CoerceKeysToSnakeCase", "CastValuesToInt", "CastValuesToFloat", "CastValuesToBool", "CastNanInf", "SetCheckTagToSkipFunc", "HandleXMPPStreamTag", "DecodeSimpleValuesAsMap", "XmlGoEmptyElemSyntax", "XmlDefaultEmptyElemSyntax", "XmlCheckIsValid", "XMLEscapeChars", "XMLEscapeCharsDecoder", "SetFieldSeparator", "SetArraySize", "LeafUseDotNotation"},
 		Floors:      map[string]int64{"setter-calls-checked": 20000, "toggle-forms": 3000, "repeat-idempotence-checks": 2000, "noninterference-probes": 3000, "restores-checked": 1500, "interleaved-api-calls": 5000},
@@ -237,6 +237,42 @@ func jsonProbe() string {
 	return b.String()
 }
 
+// encodeProbe: encodings of hand-built Maps (nothing decoded) whose keys resemble the current attribute prefix in another
+// letter case, contain hyphens / upper-case letters, look like reserved keys. Decoder-only options must leave it unchanged.
+func encodeProbe() string {
+	snap := mxj.VerifOptionSnapshot()
+	pfx, _ := snap["attrPrefix"].(string)
+	attrK, textK, seqK := snap["attrK"].(string), snap["textK"].(string), snap["seqK"].(string)
+	up := strings.ToUpper(pfx)
+	m := mxj.Map{"Doc": map[string]interface{}{pfx + "id": "1", up + "ID": "2", up + "id": "3", "Child-One": " pad ", "_seq": "7",
+		"Item": []interface{}{map[string]interface{}{pfx + "A-b": "x", textK: "NaN"}, "1.50", true, nil}}}
+	var b strings.Builder
+	x, e := m.Xml()
+	b.WriteString(string(x) + fmt.Sprint(e))
+	x, e = m.XmlIndent("", " ")
+	b.WriteString(string(x) + fmt.Sprint(e))
+	x, e = mxj.AnyXml(map[string]interface{}(m), "Root-Tag")
+	b.WriteString(string(x) + fmt.Sprint(e))
+	x, e = m.Json()
+	b.WriteString(string(x) + fmt.Sprint(e))
+	ms := mxj.MapSeq{"Doc": map[string]interface{}{attrK: map[string]interface{}{"A-b": map[string]interface{}{textK: "1", seqK: 0}}, pfx + "Kid": map[string]interface{}{textK: " t ", seqK: 0}}}
+	x, e = ms.Xml()
+	b.WriteString(string(x) + fmt.Sprint(e))
+	return b.String()
+}
+
+var c18decoderOnly = []string{"CoerceKeysToLower", "CoerceKeysToSnakeCase", "IncludeTagSeqNum", "DisableTrimWhiteSpace", "CastValuesTo", "CastNanInf", "SetCheckTagToSkipFunc",
+	"HandleXMPPStreamTag", "DecodeSimpleValuesAsMap", "LeafUseDotNotation", "SetArraySize", "SetFieldSeparator"}
+
+func c18isDecoderOnly(name string) bool {
+	for _, p := range c18decoderOnly {
+		if strings.HasPrefix(name, p) {
+			return true
+		}
+	}
+	return false
+}
+
 func decodeProbe(withCast bool) string {
 	var b strings.Builder
 	for _, d := range c18docs {
@@ -402,9 +438,20 @@ func (c18) Case(c *core.Ctx) {
 		if sc.class != "attr-case" {
 			jsonBefore = jsonProbe() // no option setter documents an effect on the JSON codec
 		}
+		encBefore := ""
+		if c18isDecoderOnly(sc.name) {
+			encBefore = encodeProbe()
+		}
 		sc.apply()
 		sc.model(model)
 		hist = append(hist, sc.name)
+		if encBefore != "" {
+			c.Count("noninterference-probes:encoders")
+			if encAfter := encodeProbe(); encAfter != encBefore {
+				c.Violate("c18-interference:decoder-option-changes-encoding", sc.name+" (an option documented for decoding / queries only) changed the output of an encoder", core.D{"history": hist, "before": encBefore, "after": encAfter})
+				return
+			}
+		}
 		if jsonBefore != "" {
 			if jsonAfter := jsonProbe(); jsonAfter != jsonBefore {
 				c.Violate("c18-interference:json", sc.name+" changed the behaviour of the JSON codec", core.D{"history": hist, "before": jsonBefore, "after": jsonAfter})
